@@ -40,6 +40,14 @@ def generate(seed, tier="quick"):
                             total=rng.choice([4.0, 8.0]) if long_hist else None)
     if shared and len(world["minerals"]) > 1 and rng.random() < 0.7:
         ops = _bulk_history(rng, world)
+    # intervals running backwards in time (un-straining, stepping back along a pathline):
+    # either a forward-then-backward round trip or individual reversed calls
+    c = rng.random()
+    if c < 0.12:
+        back = [dict(o, t0=o["t1"], t1=o["t0"]) for o in reversed(ops)]
+        ops = ops + back
+    elif c < 0.2:
+        ops = [dict(o, t0=o["t1"], t1=o["t0"]) for o in reversed(ops)]
     return {"property": PROPERTY, "engine": "world", "seed": seed, "world": world, "ops": ops}
 
 
@@ -122,6 +130,7 @@ class C06Monitor:
         self.maxima = {}
         self.cum = {}  # mineral idx -> (F_ref_cumulative, N, strain)
         self.compact = False
+        self.reversed = False
 
     def v(self, clause, i, m, detail):
         self.verdicts.append({"property": PROPERTY, "clause": clause, "op": i, "m": m,
@@ -156,6 +165,9 @@ class C06Monitor:
         b = call_bound(1, eps)
         self.inc("calls_checked")
         self.inc(f"calls_checked.{flow.family}")
+        if op["t1"] < op["t0"]:
+            self.inc("calls_checked.reversed_interval")
+            self.reversed = True
         if flow.family in ("pulse", "band") and rec["steps"] >= 1:
             self.compact = True
         if flow.family in ("pulse", "band") and eps > 0:
@@ -170,6 +182,7 @@ class C06Monitor:
         if rel > b:
             self.v("per_call" if rec["op"] == "update" else "bulk", i, m0,
                    {"rel": rel, "bound": b, "strain": eps, "family": flow.family,
+                    "reversed_interval": bool(op["t1"] < op["t0"]),
                     "solver_steps": rec["steps"], "L_nonzero_seen": rec.get("L_nonzero_seen"),
                     "F_out": F_out.tolist(), "F_ref": Fref.tolist()})
         # determinant: det F_out = det F_in * exp(int tr L)
@@ -179,7 +192,8 @@ class C06Monitor:
         self.mx("det_err_over_tol" + tag, d / det_tol)
         if d > det_tol:
             self.v("det", i, m0, {"det": float(np.linalg.det(F_out)), "det_ref": det_ref,
-                                  "tol": det_tol, "family": flow.family, "solver_steps": rec["steps"]})
+                                  "tol": det_tol, "family": flow.family, "solver_steps": rec["steps"],
+                                  "strain": eps, "reversed_interval": bool(op["t1"] < op["t0"])})
         # cumulative refinement along the F chain (a bulk update continues the chain of
         # the mineral whose F was handed in and hands the result to every mineral in the list)
         lead = ms[0] if rec["op"] == "update" or op.get("F_from") is None else op["F_from"]
@@ -194,7 +208,8 @@ class C06Monitor:
         if relc > bc:
             self.v("cumulative", i, lead, {"rel": relc, "bound": bc, "N": N, "strain": st,
                                            "family": flow.family, "solver_steps": rec["steps"],
-                                           "compact_support_in_history": self.compact})
+                                           "compact_support_in_history": self.compact,
+                                           "reversed_interval_in_history": self.reversed})
 
 
 def _merged_ops(scn):
@@ -249,6 +264,7 @@ def execute(scn):
                 fam = world.flows[part_ok[0]["flow"]].family
                 mon.v("split_vs_whole", len(scn["ops"]), m,
                       {"rel": rel, "tol": tol, "N": N, "strain": st, "family": fam,
+                       "reversed_interval_in_history": bool(mon.reversed),
                        "solver_steps": min([r["steps"]] + [x["steps"] for x in part_ok])})
     c = mon.c
     c["update_calls"] = len(world.log)
@@ -291,7 +307,7 @@ COMPONENTS = {
 ASSUMPTIONS = ["the reference integrator (expm / DOP853 at 1e-11) is exact for the purpose of a 5e-3 bound",
                "independence of phase/fabric/regime/grain count is implied by every mineral's F being "
                "refined against the same reference within the bound"]
-PROBES = ["env.pydrex_get_pathline", "calls_checked.pulse", "calls_checked.band",
+PROBES = ["calls_checked.reversed_interval", "env.pydrex_get_pathline", "calls_checked.pulse", "calls_checked.band",
           "calls_with_L_zero_at_both_ends_but_not_between", "bulk_calls_checked", "split_vs_whole_checked", "calls_checked.posdep",
           "calls_checked.periodic", "calls_checked.pydrex_cell", "calls_checked.const"]
 
